@@ -9,11 +9,27 @@ package node
 //@ spec def validType(s String) Bool = !hasWS(s) && str_prefixof("/", s) && !str_suffixof("/", s)
 //@ spec def validID(s String) Bool = !str_contains(s, "<") && !str_contains(s, ">") && len(s) > 0
 
-//@ props C15 C08
+// What node.Parse does with a text, as functions of the trimmed text r: the typed form /type<id> is
+// split at the first '<' and must end in '>'; the blank form _:id drops its first two bytes.
+//@ spec def nodeTypePart(r String) String = str_substr(r, 0, str_indexof(r, "<", 0))
+//@ spec def nodeIDPart(r String) String = str_substr(r, str_indexof(r, "<", 0) + 1, len(r) - str_indexof(r, "<", 0) - 2)
+//@ spec def acceptsTyped(r String) Bool = str_at(r, 0) == "/" && str_indexof(r, "<", 0) >= 0 && validType(nodeTypePart(r)) && str_at(r, len(r) - 1) == ">" && validID(nodeIDPart(r))
+//@ spec def acceptsBlank(r String) Bool = str_at(r, 0) == "_" && len(r) >= 2 && validID(str_substr(r, 2, len(r) - 2))
+// Printing: type<id>.
+//@ spec def nodeText(t String, i String) String = t + "<" + i + ">"
+
+//@ props C15 C08 C05
 //@ func Parse
 //@   opt terminates
 //@   ensures[value-or-error] (result0 != nil && result1 == nil) || (result0 == nil && result1 != nil)
 //@   ensures[well-formed] result0 != nil ==> result0.t != nil && result0.id != nil && validID(deref(result0.id)) && validType(deref(result0.t))
+//@   ensures[accepts] result0 != nil <==> (acceptsTyped(trimspace(s)) || acceptsBlank(trimspace(s)))
+//@   ensures[typed-value] result0 != nil && acceptsTyped(trimspace(s)) ==> deref(result0.t) == nodeTypePart(trimspace(s)) && deref(result0.id) == nodeIDPart(trimspace(s))
+//@   ensures[blank-value] result0 != nil && acceptsBlank(trimspace(s)) ==> deref(result0.t) == "/_" && deref(result0.id) == str_substr(trimspace(s), 2, len(trimspace(s)) - 2)
+
+//@ func (n *Node) String
+//@   requires wfNode(n)
+//@   ensures[text] result == nodeText(deref(n.t), deref(n.id))
 
 //@ func NewType
 //@   ensures[value-or-error] (result0 != nil && result1 == nil) || (result0 == nil && result1 != nil)
@@ -45,3 +61,14 @@ package node
 //@   requires wfNode(n)
 //@   ensures[hash-of-type-and-id] result == sha16(nodeEnc(deref(n.t), deref(n.id)))
 //@   ensures[is-su] result == su(n) && len(result) == 16
+
+// ---- C05: a printed node parses back to an equal node (documented domain: the type contains no '<';
+// types and ids as accepted by NewType / NewID).
+//@ props C05
+//@ axiom trim-noop: forall x String :: {trimspace(x)} !startsWithSpace(x) && !endsWithSpace(x) ==> trimspace(x) == x
+//@ lemma node-text-is-trimmed(t String, i String) using trim-noop: validType(t) && validID(i) ==> trimspace(nodeText(t, i)) == nodeText(t, i)
+//@ lemma node-text-splits(t String, i String) using : validType(t) && !str_contains(t, "<") && validID(i) ==> acceptsTyped(nodeText(t, i)) && nodeTypePart(nodeText(t, i)) == t && nodeIDPart(nodeText(t, i)) == i
+//@ lemma node-roundtrip(t String, i String) using node-text-is-trimmed node-text-splits: validType(t) && !str_contains(t, "<") && validID(i) ==> acceptsTyped(trimspace(nodeText(t, i))) && nodeTypePart(trimspace(nodeText(t, i))) == t && nodeIDPart(trimspace(nodeText(t, i))) == i
+// Without the restriction on the type the statement fails (known finding: NewType accepts a type that
+// contains '<', which Parse then splits at the wrong place).
+//@ lemma node-text-splits-any-type(t String, i String) using : validType(t) && validID(i) ==> acceptsTyped(nodeText(t, i)) && nodeTypePart(nodeText(t, i)) == t && nodeIDPart(nodeText(t, i)) == i
